@@ -2,7 +2,8 @@
 from verif import *
 from props.routers import *
 
-THEOREMS = ['c16_ps_flushed_at_completion', 'c16_ps_closed_pending_only_from_sinks', 'c16_rr_closed_pending_only_from_sinks']
+THEOREMS = ['c16_ps_flushed_at_completion', 'c16_ps_closed_pending_only_from_sinks', 'c16_rr_closed_pending_only_from_sinks',
+            'c16_ps_poll_after_close_completes', 'c16_rr_poll_after_close_completes']
 
 
 def run(tier, seed, replay=None):
